@@ -33,3 +33,40 @@ func contextByIndex(alpha []rune, n int, i int64) (string, string) {
 	c := countStrings(len(alpha), n)
 	return stringByIndex(alpha, i/c), stringByIndex(alpha, i%c)
 }
+
+// widthCounts: sizes for "width pumps" - families whose k-th member has k DISTINCT parts (k different
+// variable names, list elements, separators, registered symbols, call arguments), as opposed to one
+// short pattern repeated k times. Around the usual thresholds of small-collection special cases.
+var widthCounts = []int{4, 7, 8, 9, 10, 15, 16, 17, 18, 31, 32, 33, 63, 64, 65, 100, 129}
+var widthCountsSmall = []int{8, 9, 10, 16, 17, 33, 65}
+
+// distinctNames returns k different identifiers (v1..vk), rotated by `from` so that the same name
+// can sit at different positions of two lists
+func distinctNames(k int, from int) []string {
+	out := make([]string, k)
+	for i := range out {
+		out[i] = "v" + itoa((i+from)%k+1)
+	}
+	return out
+}
+
+func itoa(n int) string {
+	if n == 0 {
+		return "0"
+	}
+	s := ""
+	for n > 0 {
+		s = string(rune('0'+n%10)) + s
+		n /= 10
+	}
+	return s
+}
+
+// wideSum builds v1 + v2 + ... over the given names (left chain, as the grammar parses it)
+func wideSum(names []string) *enode {
+	t := eVar(names[0])
+	for _, n := range names[1:] {
+		t = eBin("+", t, eVar(n))
+	}
+	return t
+}
